@@ -323,6 +323,27 @@ def stage_params(f):
     return d
 
 
+def _install_looking_gsc(tree):
+    """a user-style global stop condition ("stop when good enough") reads the best individual found so far at every consult — also in the
+    middle of a deme's metaepoch, after a generation was evaluated and before it is appended to the history"""
+    inner = tree._gsc
+
+    class Looking:
+        def __call__(self, t):
+            try:
+                t.best_individual
+                for _, d in t.all_demes:
+                    d.best_individual
+                t.n_evaluations
+            except Exception:
+                pass
+            return inner(t)
+
+        def __str__(self):
+            return f"Looking({inner})"
+    tree._gsc = Looking()
+
+
 def run_spec(spec, mode="run", probes=None, shared=None):
     """runs the configuration; returns {"spec", "events", "mutated", "error", "summary"...}"""
     import random as pyrandom
@@ -366,6 +387,8 @@ def run_spec(spec, mode="run", probes=None, shared=None):
         tree = tree_mod.DemeTree(cfg)
         rec.tree = tree
         rec.emit(e="init", snap=rec.snap(tree), bests=bests(tree), m=0)
+        if spec.get("looking_gsc"):
+            _install_looking_gsc(tree)
         if probes and "after_init" in probes:
             probes["after_init"](tree, rec, info)
         if mode == "run":
